@@ -176,7 +176,7 @@ func c23DeclareRules(e *c23Env) {
 	c.Rule("C23-T5", "inside the statement: per iterator that executes trigger logic, a built logic iterator is closed on every path, and errors of build, Next and Close of the logic reach the caller (never discarded, never overwritten by a row return); Close of an executor closes its child on every path and hands on that error", e.floor(9))
 	c.Rule("C23-T2", "row flow: the logic is built on / prepended with the child's row (block: its current row), the drain loop keeps the last logic row, and every returned row is the child's row or the row selected from the last logic row", e.floor(8))
 	c.Rule("C23-L", "row layouts agree: buildSet writes input||updated and both readers take the upper half; UPDATE rows are old||new for the writer (updateSourceIter), the reader (updateIter: Update(old,new)) and the OLD/NEW scope of getTriggerLogic; planbuilder and analyzer offer the same aliases per event; rows returned to an AFTER executor have the width of the event's scope", e.floor(17))
-	c.Rule("C23-T3", "placement: applyTrigger wraps the DML node's row source for BEFORE and the node itself for AFTER; detection and placement switches cover exactly the node kinds that open a table editor and agree on the event; every editor operation of a DML iterator belongs to the node's event; the executor's child/logic roles (constructor fields, Children() index, accessors) are the ones the build function, the placing transform's selector and the prepend selector use; triggers are selected by table AND event", e.floor(19))
+	c.Rule("C23-T3", "placement: applyTrigger wraps the DML node's row source for BEFORE and the node itself for AFTER; detection and placement switches cover exactly the node kinds that open a table editor and agree on the event; every editor operation of a DML iterator belongs to the node's event; the executor's child/logic roles (constructor fields, Children() index, accessors) are the ones the build function, the placing transform's selector and the prepend selector use; triggers are selected by table AND event", e.floor(22))
 	c.Rule("C23-T4", "order: the application loop ranges over the ordering function's result; OrderTriggers inserts PRECEDES at / FOLLOWS after the referenced trigger and splits the reordered slice by time; exactly the AFTER half is reversed", e.floor(6))
 }
 
@@ -278,6 +278,7 @@ var c23FixtureWant = []string{
 	"C23-T3:deleteIter/RowDeleter.Delete",                            // … so the delete operation is not covered
 	"C23-T3:insertIter/RowDeleter.Delete",                            // replace path deletes under an INSERT-only match
 	"C23-T3:applyTrigger/Update/after",                               // AFTER executor under the node
+	"C23-T3:applyTrigger/Update/trigger-matches-node",                // arm places any selected trigger on the node
 	"C23-T3:applyTrigger/selector-skips-logic-child",                 // selector skips child 0, not the logic
 	"C23-T3:prependRowForTriggerExecutionSelector/skips-logic-child", // prepend selector skips the wrapped child
 	"C23-T3:applyTriggers/selects-by-table-and-event",                // selected by event only
